@@ -42,7 +42,7 @@ RtYears == IF QUICK THEN {1, 1900, 2000, 2024, 9999} ELSE {1, 2, 100, 400, 1600,
 RtInputs == { x \in [k : {"rt"}, y : RtYears, mo : 1..12, d : {1, 28, 29, 30, 31}, h : {0, 23}, mi : {0, 59}, sec : {0, 59}] :
               x.d <= DaysIn(x.mo, x.y) }
 
-V4Core == IF QUICK THEN Pick(V4FieldAll, {"", "0", "00", "007", "25", "255", "256", "999999999999", "1a", " 1"}) ELSE V4FieldAll
+V4Core == IF QUICK THEN Pick(V4FieldAll, {"", "0", "00", "007", "25", "255", "256", "999999999999", "1a", " 1", "4294967303", "9223372036854775808", "18446744073709551623"}) ELSE V4FieldAll
 V4Few == Pick(V4FieldAll, {"", "1", "255", "256"})
 \* four fields with independent amounts of zero padding (0 .. 9 zeros: totals far beyond 15 bytes)
 V4Pad == IF QUICK THEN V4PaddedFields({"0", "9", "255", "256"}, {0, 2, 5})
